@@ -56,7 +56,7 @@ def rule_doc(i, r, names, force_nogen=False):
     for k, c in enumerate(r["conds"]):
         sel = "s%d" % k
         if c == "ok":
-            det[sel] = {fld: i * 10 + k} if k % 2 == 0 else {fld: "v%d_%d" % (i, k), "x": "a*"}
+            det[sel] = {fld: i * 10 + k} if k % 2 == 0 else {fld: "v%d%d*" % (i, k)}
         elif c == "ph":
             det[sel] = {fld + "|expand": "%x%"}
         elif c == "type":
@@ -81,7 +81,7 @@ def rule_doc(i, r, names, force_nogen=False):
 def make_pipeline(case, names):
     if not case.get("pipe"):
         return None
-    items = [ProcessingItem(FieldMappingTransformation({"f": "mapped_f", "x": ["x1", "x2"]})),
+    items = [ProcessingItem(FieldMappingTransformation({"f": ["f1", "f2"]})),
              ProcessingItem(SetStateTransformation("index", "win"))]
     post = [QueryPostprocessingItem(EmbedQueryTransformation(prefix="<", suffix=">"))]
     for i, r in enumerate(case["rules"]):
